@@ -18,6 +18,7 @@ import (
 type ProbeRec struct {
 	Ep, N         int
 	CallAt, RelAt time.Duration
+	RetAt         time.Duration // when WriteTo returned to the caller (RelAt unless the return was stalled)
 	RelSeq        uint64
 	Bytes         []byte
 	Dst           netip.AddrPort
@@ -63,8 +64,8 @@ type PktEp struct {
 
 // PktRec is one inbound packet on the shared wire.
 type PktRec struct {
-	ID     int
-	Ether  uint16 // ethertype override for the capture filter (0: by IP version)
+	ID    int
+	Ether uint16 // ethertype override for the capture filter (0: by IP version)
 	// OnlyEp > 0 delivers the packet to endpoint OnlyEp-1 only. Used for the synthetic filter-probe
 	// frames of C12, whose port bytes are derived arithmetically from kernel-chosen ports: seen by
 	// other endpoints their verdict would depend on how the kernel happened to number the ports.
@@ -157,6 +158,9 @@ func (s *simSource) SetPacketFilter(spec packets.PacketFilterSpec) error {
 func (s *simSink) WriteTo(buf []byte, addrPort netip.AddrPort) error {
 	// the write is "called" from now on: the read path may observe it as probed
 	r := s.w.park(&op{kind: opWrite, actor: s.ep.Actor, ep: s.ep, buf: buf, addr: addrPort})
+	if r.stall > 0 {
+		time.Sleep(r.stall) // virtual: the packet is on the wire, the calling goroutine is held up
+	}
 	return r.err
 }
 func (s *simSink) Close() error {
@@ -408,7 +412,7 @@ func (ep *Endpoint) writesCalledNow(w *World) int {
 
 func (ep *Endpoint) performWrite(w *World, o *op, now time.Duration) {
 	w.Seq++
-	pr := &ProbeRec{Ep: ep.Idx, N: len(ep.Probes) + 1, CallAt: o.parkAt, RelAt: now, RelSeq: w.Seq, Bytes: append([]byte(nil), o.buf...), Dst: o.addr}
+	pr := &ProbeRec{Ep: ep.Idx, N: len(ep.Probes) + 1, CallAt: o.parkAt, RelAt: now, RetAt: now, RelSeq: w.Seq, Bytes: append([]byte(nil), o.buf...), Dst: o.addr}
 	ep.Probes = append(ep.Probes, pr)
 	if ep.SinkClosed > 0 {
 		pr.AfterClose = true
@@ -439,6 +443,15 @@ func (ep *Endpoint) performWrite(w *World, o *op, now time.Duration) {
 		w.react(ep, pr, now)
 	}
 	w.unpark(o)
+	if o.fault != nil && o.fault.Class == "stallret" {
+		// +333ns: see the "stall" class
+		d := time.Duration(o.fault.Us)*time.Microsecond + 333*time.Nanosecond
+		pr.RetAt = now + d
+		w.stat("fault.write.stallret")
+		w.fire(o, "stallret")
+		o.done <- opResult{stall: d}
+		return
+	}
 	o.done <- opResult{}
 }
 
